@@ -187,6 +187,17 @@ CLAIMED = {
             "the same values, nor argument order inside explicit-index templates.",
             "abstract interpretation of string-building code (templates with holes and path guards) + grammar/table agreement + guard evidence on dominating branches",
             "DESIGN.md §4 C17"),
+    "C13": ("Structural necessary conditions of the text/JSON round trips: the formatter's and the parser's tables agree — each DateFormat "
+            "and TimeFormat constant (and the ISO layouts Render uses), rendered for Go's reference instant through gocommon's layout table, "
+            "is matched by the pattern of its parser arm with year/month/day and hour/minute/second/fraction/marker in the capture groups "
+            "the parser reads them from; parseDate has an arm per constant; the 12-hour conversion is evaluated over hour 0..24 x marker; "
+            "fraction digits reach the nanoseconds through integers only; ISO layouts are tried first; Sprintf-then-time.Parse component "
+            "widths agree; decimalRegexp accepts every decimal.String rendering (automata inclusion); the JSON type switch covers the six "
+            "value types with the matching X types and no gate narrower than the JSON number grammar; decimals marshal unquoted; every "
+            "XValue has MarshalJSON; = and != are ToXText + string (in)equality. Does not decide the library arithmetic, DST folds, "
+            "second-granular UTC offsets or non-am/pm locales.",
+            "writer/reader table agreement by constant evaluation of the source's own patterns and layouts; regular-language inclusion; finite-domain evaluation of an SSA fragment; go/ssa provenance",
+            "DESIGN.md §4 C13"),
 }
 
 NOT_APPLICABLE = {}
